@@ -76,6 +76,9 @@ KINDS = {
     'd3b': ('discr', (3,), False),        # nodes on the boundary
     'd3w': ('discr', (3,), True),         # user-given constant weighting
     'd23n': ('discr', (2, 3), False),     # non-uniform partition
+    'd22': ('discr', (2, 2), False),      # square: an axis mix-up keeps the shape
+    'd3a': ('discr', (3,), True),         # array weighting
+    'd23a': ('discr', (2, 3), True),      # array weighting, 2-d
     'p2t3': ('power', (2, 3), False),
     'p2d3': ('power', (2, 3), False),
     'p3t2w': ('power', (3, 2), True),     # weighted product space
@@ -111,6 +114,17 @@ def build_space(kind, dt):
     if kind == 'd23n':
         part = odl.nonuniform_partition([0.5, 1.5], [0.0, 1.0, 3.0])
         return odl.DiscretizedSpace(part, odl.tensor_space(part.shape, dtype=dt))
+    if kind == 'd22':
+        return odl.uniform_discr([0, 0], [1, 4], (2, 2), dtype=dt)
+    if kind == 'd3a':
+        return odl.DiscretizedSpace(
+            odl.uniform_partition(0, 1.5, 3),
+            odl.tensor_space((3,), dtype=dt, weighting=np.array([1.0, 2.0, 0.5])))
+    if kind == 'd23a':
+        return odl.DiscretizedSpace(
+            odl.uniform_partition([0, 0], [1, 3], (2, 3)),
+            odl.tensor_space((2, 3), dtype=dt,
+                             weighting=np.array([[1.0, 2.0, 0.5], [2.0, 1.0, 4.0]])))
     if kind == 'p2t3':
         return odl.ProductSpace(odl.tensor_space((3,), dtype=dt), 2)
     if kind == 'p2d3':
@@ -190,13 +204,16 @@ FAMILY_NAME = {'tensor': 'NumpyTensor', 'discr': 'DiscretizedSpaceElement',
 # differential localisation of a failure along the kind / dtype dimension: the same case is
 # re-executed on the plain kind (and on float64); a tag is added to the site only if the
 # control does not show the same symptom
-CONTROL = {'t3w': 't3', 't3e': 't3', 't23a': 't23', 'd3b': 'd3', 'd3w': 'd3', 'd23n': 'd23'}
+CONTROL = {'t3w': 't3', 't3e': 't3', 't23a': 't23', 'd3b': 'd3', 'd3w': 'd3', 'd23n': 'd23',
+           'd3a': 'd3', 'd23a': 'd23'}
 KIND_TAG = {'t3w': 'weighting=const', 't3e': 'exponent=1', 't23a': 'weighting=array',
-            'd3b': 'nodes_on_bdry', 'd3w': 'weighting=const', 'd23n': 'nonuniform'}
+            'd3b': 'nodes_on_bdry', 'd3w': 'weighting=const', 'd23n': 'nonuniform',
+            'd3a': 'weighting=array', 'd23a': 'weighting=array'}
 
 
-# the plainest ufunc of each arity (defined for all five dtypes, dtype preserving)
-PLAIN_UFUNC = {(1, 1): 'absolute', (2, 1): 'maximum'}
+# plain ufuncs of each arity, tried in this order as the control of the ufunc dimension (the
+# first one NumPy accepts for the case at hand decides)
+PLAIN_UFUNC = {(1, 1): ['negative', 'absolute', 'logical_not'], (2, 1): ['maximum', 'add']}
 
 
 class Ctx(object):
@@ -256,6 +273,7 @@ class Ctx(object):
 
     # -- bookkeeping --------------------------------------------------------------------
     def fail(self, method, tags, symptom, detail, cls=None, rerun=None, uf=None, uftag=None):
+        loc = None
         if self.control:
             pass
         elif self.family == 'power' and cls is None:
@@ -264,11 +282,8 @@ class Ctx(object):
             tags = []
             method = 'np.' + method
         elif rerun is not None and self.family != 'power':
-            key = (cls, method, frozenset(tags), symptom)
-            if key not in self._loc:
-                self._loc[key] = self.localize(symptom, rerun, uf, uftag)
-            tags = list(tags) + self._loc[key]
-        self.fails.append((cls or self.cls, method, frozenset(tags), symptom, detail))
+            loc = (rerun, uf, uftag)
+        self.fails.append((cls or self.cls, method, frozenset(tags), symptom, detail, loc))
         self.sigs.add('%s>viol:%s' % (method, symptom))
 
     def localize(self, symptom, rerun, uf, uftag):
@@ -278,15 +293,24 @@ class Ctx(object):
         kind, dt = self.kind, self.dt
 
         def shows(kind, dt, u):
+            """True / False: the control shows / does not show the symptom; None: the control
+            is not applicable (NumPy refuses it)."""
             c2 = Ctx(kind, dt, control=True)
             rerun(c2, u)
+            if c2.evals == 0:
+                return None
             return symptom in [f[3] for f in c2.fails]
 
         if uf is not None:
-            plain = PLAIN_UFUNC.get((uf.nin, uf.nout))
-            if plain is not None and uf.__name__ != plain:
-                if shows(kind, dt, UF[plain]):
-                    uf = UF[plain]
+            cands = [n for n in PLAIN_UFUNC.get((uf.nin, uf.nout), [])]
+            if cands and uf.__name__ not in cands:
+                verdict = None
+                for n in cands:
+                    verdict = shows(kind, dt, UF[n])
+                    if verdict is not None:
+                        break
+                if verdict:
+                    uf = UF[n]
                 else:
                     extra.append(uftag or 'ufunc=' + uf.__name__)
         if dt != 'float64':
@@ -302,14 +326,24 @@ class Ctx(object):
     def result(self, extra_sig=()):
         viol = []
         seen = set()
+        keep = []
         for f in self.fails:
-            cls, method, tags, sym, det = f
+            cls, method, tags, sym, det, loc = f
             # keep only failures whose option set is minimal among the failures of this state
             # with the same symptom (a defect is reported at its simplest configuration)
             if any(g[0] == cls and g[1] == method and g[3] == sym and g[2] < tags
                    for g in self.fails):
                 continue
-            site = '%s[%s]' % (cls, ';'.join([method] + sorted(tags)))
+            if (cls, method, tags, sym) in seen:
+                continue
+            seen.add((cls, method, tags, sym))
+            keep.append(f)
+        seen = set()
+        for cls, method, tags, sym, det, loc in keep:
+            tags = sorted(tags)
+            if loc is not None:
+                tags = sorted(tags + self.localize(sym, *loc))
+            site = '%s[%s]' % (cls, ';'.join([method] + tags))
             if (site, sym) in seen:
                 continue
             seen.add((site, sym))
@@ -320,6 +354,15 @@ class Ctx(object):
                 'stats': {'inapplicable': self.inappl, 'refused': self.refused,
                           'legacy_deviation_shared_with_numpy_call': getattr(self, 'shared',
                                                                              0)}}
+
+
+def _sprepr(space):
+    try:
+        return ' '.join(repr(space).split())
+    except Exception:       # repr of an array-weighted DiscretizedSpace raises (not C17's topic)
+        return '<%s shape=%s dtype=%s weighting=%s>' % (
+            type(space).__name__, getattr(space, 'shape', '?'), getattr(space, 'dtype', '?'),
+            type(getattr(space, 'weighting', None)).__name__)
 
 
 def _bits_equal(a, b):
@@ -471,6 +514,11 @@ def mk_out(ctx, spec, shape, dt):
         return np.asfortranarray(pre), np.asfortranarray(pre)
     if len(shape) == 0:
         raise _NoOut()
+    if spec == 'elem_own':             # element of the state's own space (its dtype may differ
+        # from the ``dtype=`` keyword: writable_array then works on a converted copy)
+        if tuple(shape) != ctx.shape:
+            raise _NoOut()
+        return ctx.space.element(prefill(ctx.dt, shape)), prefill(ctx.dt, shape)
     if spec == 'elem':
         try:
             sp = ctx.other_space(shape, dt)
@@ -538,7 +586,7 @@ def _desc(ctx, uf, method, ops, outspec, kw, o_args):
         parts.append(k)
     if outspec not in (None, 'none', ('none', 'none')):
         parts.append('out=<%s>' % (outspec,))
-    return '%s(%s) in %s' % (name, ', '.join(parts), repr(ctx.space).replace('\n', ' '))
+    return '%s(%s) in %s' % (name, ', '.join(parts), _sprepr(ctx.space))
 
 
 def check_wrapped(ctx, res, ref):
@@ -560,6 +608,38 @@ def check_wrapped(ctx, res, ref):
     elif not _bits_equal(a, ref):
         out.append(('values_differ', 'expected %s, got %s' % (_short(ref), _short(a))))
     return out
+
+
+def check_partition(ctx, method, o_args, kw, res):
+    """Domain of a freshly wrapped discretized result, as the docstring of
+    DiscretizedSpaceElement.__array_ufunc__ shows it: same-shape results keep the partition
+    ("The ``ufunc.accumulate`` method retains the original space"), ``reduce`` keeps the
+    partition of the remaining axes (example ``reduce(z, axis=1) -> uniform_discr(0.0, 1.0,
+    2)``), ``outer`` concatenates the partitions of its two operands."""
+    part = ctx.space.partition
+    if method in ('__call__', 'accumulate'):
+        want = part
+    elif method == 'reduce':
+        ax = kw.get('axis', 0)
+        if ax is None:
+            return []
+        ax = (ax,) if not isinstance(ax, tuple) else ax
+        red = set(a % ctx.ndim for a in ax)
+        rest = [i for i in range(ctx.ndim) if i not in red]
+        if not rest:
+            return []
+        want = part.byaxis[rest]
+    elif method == 'outer':
+        if not all(isinstance(o, DiscretizedSpaceElement) for o in o_args):
+            return []
+        want = o_args[0].space.partition.append(o_args[1].space.partition)
+    else:
+        return []
+    got = res.space.partition
+    if got != want:
+        return [('result_partition_differs', 'result lives on %s, expected %s'
+                 % (' '.join(repr(got).split()), ' '.join(repr(want).split())))]
+    return []
 
 
 def check_scalar(res, ref):
@@ -628,6 +708,8 @@ def run_case(ctx, uf, method, ops, outspec, kw, ref0=None, extra_tags=()):
                 else:
                     if s != 'none' and np.ndim(r0) == 0 and s not in ('ndarray', 'nd0'):
                         raise _NoOut()
+                    if s == 'elem_own' and np.asarray(r0).dtype == np.dtype(ctx.dt):
+                        raise _NoOut()      # same as 'elem'
                     oo, ro = mk_out(ctx, s, np.shape(r0), np.asarray(r0).dtype)
                     o_outs.append(oo)
                     r_outs.append(ro)
@@ -695,7 +777,10 @@ def run_case(ctx, uf, method, ops, outspec, kw, ref0=None, extra_tags=()):
                         problems.extend(check_scalar(r1, rf))
                         ctx.sigs.add('%s>0d' % method)
                     else:
-                        problems.extend(check_wrapped(ctx, r1, rf))
+                        pr = check_wrapped(ctx, r1, rf)
+                        if not pr and ctx.family == 'discr':
+                            pr = check_partition(ctx, method, o_args, kw, r1)
+                        problems.extend(pr)
                         ctx.sigs.add('%s>wrapped:%s' % (method, rf.dtype.kind))
                 else:
                     if r1 is not o_outs[i]:
@@ -761,7 +846,7 @@ def sec_call(ctx, uf, full):
         outs = ['none', 'elem', 'ndarray', 'alias']
         if ctx.family == 'discr':
             outs.append('tensor')
-        outs_kw = ['none', 'elem', 'ndarray']
+        outs_kw = ['none', 'elem', 'ndarray', 'elem_own']
         outs_full = ['elem_w', 'nd_nc', 'nd_F']
     else:
         outs = [('none', 'none'), ('elem', 'elem'), ('none', 'elem'), ('elem', 'none'),
@@ -867,8 +952,8 @@ def sec_accumulate(ctx, uf, full):
         outs = ['none', 'ndarray']
         ctx.skipped += 1
     else:
-        outs = ['none', 'elem', 'ndarray', 'alias'] + (['tensor'] if ctx.family == 'discr'
-                                                       else [])
+        outs = ['none', 'elem', 'ndarray', 'alias', 'elem_own'] + (
+            ['tensor'] if ctx.family == 'discr' else [])
         if full:
             outs += ['elem_w', 'nd_nc']
     axes = [{}] + [{'axis': a} for a in range(ctx.ndim)] + \
@@ -1041,8 +1126,9 @@ def _legacy_one(ctx, name, uf, x_fill, x2spec, outspec, kw, cls, red=None):
     o_args, r_args = [], []
     keep = []
     if x2spec is not None:
-        if x2spec[0] == 'C':            # array of the component shape (product spaces)
-            b = fill(ctx.dt, ctx.shape[1:], x2spec[1])
+        if x2spec[0] == 'C':            # array of the leaf shape (product spaces: "support
+            # broadcasting, per component and even recursively" -> handed down to the leaves)
+            b = fill(ctx.dt, ctx.shape[-1:], x2spec[1])
             o_args, r_args = [b.copy()], [b.copy()]
             keep = [(o_args[0], b)]
         else:
@@ -1109,7 +1195,7 @@ def _legacy_one(ctx, name, uf, x_fill, x2spec, outspec, kw, cls, red=None):
         ctx.inappl += 1
         return False
     text = '%s.element(%s).ufuncs.%s(%s)' % (
-        repr(ctx.space).replace('\n', ' '), a.tolist(), red or name,
+        _sprepr(ctx.space), a.tolist(), red or name,
         ', '.join([_short(o) for o in o_args] + ([_kwdesc(kw)] if kw else [])
                   + (['out=<%s>' % '+'.join(specs)] if given else [])))
     ctx.evals += 1
@@ -1145,7 +1231,7 @@ def _legacy_one(ctx, name, uf, x_fill, x2spec, outspec, kw, cls, red=None):
         x2np = x2spec
         if x2spec is not None and x2spec[0] == 'C':
             # per-component broadcasting of a component-shaped array is NumPy's broadcasting
-            x2np = ('A2', x2spec[1], ctx.shape[1:])
+            x2np = ('A2', x2spec[1], ctx.shape[-1:])
         ops = [('E', x_fill)] + ([x2np] if x2np is not None else [])
         if red is None:
             run_case(c2, uf, '__call__', ops, outspec, kw)
@@ -1251,7 +1337,7 @@ def sec_wrap(ctx, full):
     base = fill(dt, shape, 'a1')
 
     def bad(sym, text, tags=()):
-        ctx.fail('element', list(tags), sym, '%s in %s' % (text, repr(sp).replace('\n', ' ')),
+        ctx.fail('element', list(tags), sym, '%s in %s' % (text, _sprepr(sp)),
                  cls=type(sp).__name__)
 
     variants = [('C', base.copy())]
@@ -1336,8 +1422,49 @@ def sec_wrap(ctx, full):
                 % (what, _short(el.asarray()), _short(base)))
         ctx.sigs.add('wrap>copy:' + what)
     # read-only input: the code copies ("Make sure the result is writeable, if not make
-    # copy"), the docstring promises no copy "whenever possible" -> not judged
+    # copy"), the docstring promises no copy "whenever possible" -> sharing is not judged,
+    # the values are
+    ro = base.copy()
+    ro.flags.writeable = False
+    ctx.evals += 1
     ctx.skipped += 1
+    try:
+        el = sp.element(ro)
+        if not _bits_equal(el.asarray(), base):
+            bad('asarray_roundtrip', 'space.element(<read-only array>).asarray() = %s'
+                % _short(el.asarray()))
+    except Exception as e:
+        bad('raises:' + type(e).__name__, 'space.element(<read-only array>): %r' % e)
+    if ctx.family != 'power':
+        # an element of the space is handed back as it is
+        el = sp.element(base.copy())
+        ctx.evals += 1
+        if sp.element(el) is not el:
+            bad('memory_not_shared', 'space.element(x) is not x for x in space')
+        # "if ``order`` is provided, also contiguousness in that ordering [is required].  If
+        # any of these conditions is not met, a copy is made."
+        for vname, arr in (('C', base.copy()), ('F', np.array(base, order='F', copy=True))):
+            for order in ('C', 'F'):
+                ctx.evals += 1
+                try:
+                    el = sp.element(arr, order=order)
+                except Exception as e:
+                    bad('raises:' + type(e).__name__, 'space.element(<%s array>, order=%r): %r'
+                        % (vname, order, e), ['order'])
+                    continue
+                got = el.asarray()
+                contiguous = arr.flags['C_CONTIGUOUS' if order == 'C' else 'F_CONTIGUOUS']
+                if not _bits_equal(got, base):
+                    bad('asarray_roundtrip', 'space.element(<%s array>, order=%r).asarray() = '
+                        '%s' % (vname, order, _short(got)), ['order'])
+                elif not got.flags['C_CONTIGUOUS' if order == 'C' else 'F_CONTIGUOUS']:
+                    bad('asarray_roundtrip', 'space.element(<%s array>, order=%r) is not %s-'
+                        'contiguous' % (vname, order, order), ['order'])
+                elif contiguous and not np.shares_memory(arr, got):
+                    bad('memory_not_shared', 'space.element(<%s array>, order=%r) copied an '
+                        'array that is already contiguous in that order' % (vname, order),
+                        ['order'])
+                ctx.sigs.add('wrap>order:%s%s' % (vname, order))
     # __array_wrap__
     el = sp.element(base.copy())
     arr = fill(dt, shape, 'b1')
@@ -1353,6 +1480,21 @@ def sec_wrap(ctx, full):
         ctx.sigs.add('wrap>array_wrap')
     except Exception as e:
         bad('raises:' + type(e).__name__, 'x.__array_wrap__(arr): %r' % e)
+    # 0-d arrays are handed to the field (undocumented arm; spaces over a non-numeric dtype
+    # have no field -> not judged there)
+    if getattr(sp, 'field', None) is not None or ctx.family == 'power':
+        ctx.evals += 1
+        z = fill(dt, (), 'b1')
+        try:
+            w = el.__array_wrap__(z)
+            if np.ndim(w) != 0 or not _num_equal(w, z):
+                bad('values_differ', 'x.__array_wrap__(%s) = %s' % (_short(z), _short(w)),
+                    ['0-d'])
+            ctx.sigs.add('wrap>array_wrap0d')
+        except Exception as e:
+            bad('raises:' + type(e).__name__, 'x.__array_wrap__(<0-d array>): %r' % e, ['0-d'])
+    else:
+        ctx.skipped += 1
 
 
 # ------------------------------------------------------------------------------------------
@@ -1415,13 +1557,13 @@ def sec_hist(ctx, full):
                 ctx.fail('history', tags, 'raises:' + type(e).__name__,
                          'sequence %s on x=%s, y=%s in %s: %r'
                          % (' ; '.join(names), ax.tolist(), ay.tolist(),
-                            repr(ctx.space).replace('\n', ' '), e))
+                            _sprepr(ctx.space), e))
                 break
             if not (_bits_equal(x.asarray(), mx) and _bits_equal(y.asarray(), my)):
                 ctx.fail('history', tags, 'values_differ',
                          'sequence %s on x=%s, y=%s in %s: elements hold x=%s y=%s, the ndarray '
                          'mirror x=%s y=%s' % (' ; '.join(names), ax.tolist(), ay.tolist(),
-                                               repr(ctx.space).replace('\n', ' '),
+                                               _sprepr(ctx.space),
                                                x.asarray().tolist(), y.asarray().tolist(),
                                                mx.tolist(), my.tolist()))
                 break
@@ -1529,7 +1671,8 @@ def sec_base(ctx, method, full):
 # configurations
 
 QUICK_KINDS = ['t3', 't23', 'd3', 'd23', 'p2t3']
-QUICK_FLOAT_KINDS = ['t3w', 't23a', 'd3w', 'd23n', 't213', 'd213', 'p2d3']
+QUICK_FLOAT_KINDS = ['t3w', 't23a', 'd3w', 'd22', 'd3a', 'd23a', 'd23n', 't213', 'd213',
+                     'p2d3']
 METHODS = ['call', 'reduce', 'accumulate', 'outer', 'at', 'reduceat']
 
 
@@ -1547,6 +1690,8 @@ def _kind_dtypes(tier):
         for dt in DTYPES:
             if KINDS[k][2] and dt not in FLOATING:
                 continue
+            if k in ('t23a', 'd3a', 'd23a') and dt == 'float32':
+                continue        # float64 weights cannot be given to a float32 space
             out.append((k, dt))
     return out
 
